@@ -1,6 +1,6 @@
 SPECIFICATION Spec
 CONSTANTS
-  Vals = {-40, -1, 0, 1, 2, 40}
+  Vals <- ValsT
   K = 3
   Styles = {0, 1, 2, 3, 4, 5, 8, 9, 10, 13, 16, 21, 32, 37, 42, 63}
   Shapes <- ShapesT
